@@ -306,6 +306,14 @@ func oracleExtract(c *FsCase, jr *JobResult) []Problem {
 				rootExists = true
 			}
 		}
+		if jr.Extra != "" {
+			out = append(out, Problem{Kind: "oracle", Stream: "extract", Msg: "C01: objects appeared outside the world while a jailed operation ran: " + jr.Extra})
+		}
+		if !rootExists {
+			if d := outsideUnchanged(before, after, "/w/nonexistent-root"); d != "" && c.Root != c.Dest {
+				out = append(out, Problem{Kind: "oracle", Stream: "extract", Msg: "C01: root is not a directory, yet " + d})
+			}
+		}
 		if rootExists {
 			if d := outsideUnchanged(before, after, c.Root); d != "" {
 				out = append(out, Problem{Kind: "oracle", Stream: "extract", Msg: "C01: " + d + " (result " + jr.Out + ")"})
